@@ -262,6 +262,13 @@ def evaluate(X, name, v, spec_octets=None, spec_tags=None):
             v1 = read()
             after = [abs_tag(t) for t in a.tagList.tagList]
             r["any"] = {"ok": True, "in": tin, "v1": v1, "after": after, "v2": read()}
+            # an Any accumulates what is cast into it: two components are both there, in order
+            b = cd.Any()
+            b.cast_in(obj)
+            b.cast_in(obj)
+            r["any"]["twice"] = [abs_tag(t) for t in b.tagList.tagList]
+            c = cd.Any(obj, obj)
+            r["any"]["ctor2"] = [abs_tag(t) for t in c.tagList.tagList]
         except Exception as e:
             fail("any", e)
     # decode
@@ -360,6 +367,8 @@ def failure(r, exp_tags=None, exp_octets=None):
             return ("RoundTrip", "any", "Any.cast_out gives back another value")
         if y["after"] != y["in"] or y["v2"] != r["v"]:
             return ("RoundTrip", "any", "reading the Any (cast_out) changed it")
+        if y.get("twice") != r["enc"]["tags"] * 2 or y.get("ctor2") != r["enc"]["tags"] * 2:
+            return ("OctetsEqualSpec", "any", "an Any given two components does not hold both encodings in order")
     if not r["dec"]["ok"]:
         return ("RoundTrip", "dec", r["dec"]["exc"])
     if r["dec"]["v"] != r["v"]:
